@@ -109,7 +109,7 @@ class Report:
             conditions=dict(total=total, decided=decided, **c),
             paths=sum(x['paths'] for x in self.conditions),
             queries_discharged=self.queries or total,
-            solver_cpu_s=round(self.solver_s, 1),
+            engine_cpu_s=round(self.solver_s, 1),
             inconclusive_items=[dict(name=x['name'], why=x['detail']) for x in incon][:60],
             known_findings_hit=self.known,
             known_finding_hits=self.known_hits,
